@@ -167,10 +167,15 @@ class C14(Property):
                 cases.append({'op': 'mass_fractions', 'masses': ms, 'coeffs': vs})
         return cases
 
+    PFORMS = ('tuple', 'tuple', 'list', 'dict', 'iter', 'phase_idx', 'default_none')
+
     def _formula_case(self, f, cls, phases=None):
         c = {'op': 'formula_mass', 'formula': fg.render(f), 'ast': f, 'cls': cls}
         if cls == 'Species':
             c['phases'] = list(phases if phases is not None else DEFAULT_PHASES)
+            # how `phases` / the phase index reach Species.from_formula (mass and composition must not depend on it); chosen
+            # from the case content so that the case stays reproducible from its JSON alone
+            c['pform'] = self.PFORMS[sum(map(ord, c['formula'])) % len(self.PFORMS)]
         return c
 
     def _comp_case(self, rng):
@@ -189,7 +194,7 @@ class C14(Property):
         op = c['op']
         if op == 'formula_mass':
             if c['cls'] == 'Species':
-                return {'op': 'species_mass', 's': c['formula'], 'phases': c['phases'], 'cls': 'Species'}
+                return {'op': 'species_mass', 's': c['formula'], 'phases': c['phases'], 'cls': 'Species', 'pform': c.get('pform', 'tuple')}
             return {'op': 'formula_mass', 's': c['formula'], 'cls': c['cls']}
         if op == 'formula_text':
             return {'op': 'formula_mass', 's': c['s'], 'cls': 'Substance'}
@@ -203,9 +208,24 @@ class C14(Property):
             return None
         return c
 
-    def _make(self, cls, s, phases=None):
+    def _make(self, cls, s, phases=None, pform='tuple'):
         from chempy import Substance, Species
         if cls == 'Species':
+            if pform == 'list':
+                return Species.from_formula(s, phases=list(phases))
+            if pform == 'dict':
+                return Species.from_formula(s, phases={k: i + 1 for i, k in enumerate(phases)})
+            if pform == 'iter':
+                return Species.from_formula(s, phases=iter(list(phases)))
+            if pform == 'phase_idx':
+                return Species.from_formula(s, phases=tuple(phases), phase_idx=3)
+            if pform == 'default_none':
+                try:
+                    return Species.from_formula(s, phases=tuple(phases), default_phase_idx=None)
+                except ValueError as e:
+                    if 'Could not determine phase_idx' not in str(e):
+                        raise
+                    return Species.from_formula(s, phases=tuple(phases))     # no declared suffix: documented refusal
             return Species.from_formula(s, phases=tuple(phases))
         if cls == 'Solute':
             from chempy.chemistry import Solute
@@ -222,7 +242,7 @@ class C14(Property):
             if op == 'mass':
                 return repr(periodic.mass_from_composition({int(k): (Fraction(*v) if isinstance(v, list) else v) for k, v in c['comp']}))
             if op in ('formula_mass', 'species_mass'):
-                return repr(self._make(c.get('cls', 'Substance'), c['s'], c.get('phases')).mass)
+                return repr(self._make(c.get('cls', 'Substance'), c['s'], c.get('phases'), c.get('pform', 'tuple')).mass)
             if op == 'ast_mass':
                 # the Lean specification value `occurrenceMass` against the harness' own exact denotation, and
                 # (instance of theorem formula_mass_spec) the model's parser+loop result on the rendered text
@@ -298,7 +318,7 @@ class C14(Property):
             comp = fg.composition(c['ast'])
             want = fg.ref_mass(comp)
             try:
-                s = self._make(c['cls'], c['formula'], c.get('phases'))
+                s = self._make(c['cls'], c['formula'], c.get('phases'), c.get('pform', 'tuple'))
             except Exception as e:
                 if c['cls'] == 'Species' and c['ast']['suffix'] and c['ast']['suffix'] not in list(c['phases']) + ['(aq)']:
                     # a suffix the caller did not declare is not stripped; it is then read as a state token (or lands in the
@@ -314,6 +334,14 @@ class C14(Property):
                         % (c['cls'], c['formula'], self._ph(c), s.mass, float(want)))
             if s.charge != comp.get(0, 0):
                 return 'charge of %s is %r' % (c['formula'], s.charge)
+            if c['cls'] == 'Species':
+                # the phase index is what the declared suffix selects (position + 1, or the dict value), an explicit phase_idx
+                # wins, "(aq)" / no suffix give the default 0; it never influences mass or composition (checked above)
+                sfx, ph, pf = c['ast']['suffix'], list(c['phases']), c.get('pform', 'tuple')
+                want_idx = 3 if pf == 'phase_idx' else next((i + 1 for i, k in enumerate(ph) if c['formula'].endswith(k)), 0)
+                if s.phase_idx != want_idx:
+                    return 'Species.from_formula(%r%s, %s).phase_idx = %r, the text ends in %r' % (
+                        c['formula'], self._ph(c), pf, s.phase_idx, sfx)
             # an explicit data["mass"] wins over the computed one (documented special case of Substance.mass)
             if c['cls'] == 'Substance' and len(c['formula']) % 7 == 0:
                 if Substance.from_formula(c['formula'], data={'mass': 1.25}).mass != 1.25:
